@@ -128,6 +128,20 @@ def _impl(tier, seed, search):
                 if ok:
                     want_ = Ads @ big if cls_ is SpatialVelocity else Ads.T @ big
                     L.close('SE3(near identity)*vector', r - big, want_ - big, 1e-6, float(np.max(np.abs(want_ - big))) + 1e-9, dict(T=Tsm.A, x=big, cls=cls_.__name__), what='the increment T*x - x of a near-identity pose is not that of the adjoint', sig='SE3*vector:near-identity')
+        # the adjoint of a motion given as a twist about an axis off the origin equals the adjoint of its SE3; and the product after the pose
+        # object has been edited in place uses the new value (nothing remembered from the first product)
+        if i % 5 == 2:
+            Xa_ = SE3(inputs.se3(g, 1), check=False); xa_ = v6()
+            ok, r = L.noraise('Twist3.Ad', lambda: (Twist3(Xa_).Ad(), Twist3.Revolute([0, 0, 1], [1, 2, 0]).Ad() if False else Twist3(Xa_).SE3().Ad(), Xa_.Ad()), dict(T=Xa_.A), 'Twist3(X).Ad()')
+            if ok: L.close('Twist3(X).Ad()=X.Ad()', r[0], r[2], 1e-7, max(1.0, geom.tmag(Xa_.A)), dict(T=Xa_.A), what='the adjoint of a rigid motion given as a Twist3 differs from the adjoint of the SE3', sig='Twist3.Ad')
+            def edit_then_mul():
+                Xe_ = SE3(Xa_.A.copy(), check=False); first_ = (Xe_ * SpatialVelocity(xa_)).A.copy(); Ad1_ = Xe_.Ad(); Ad1_[0, 0] += 0.0
+                Xe_[0] = SE3(inputs.se3(g, 1), check=False); second_ = (Xe_ * SpatialVelocity(xa_)).A
+                return first_, second_, Xe_.A.copy()
+            ok, r = L.noraise('SE3*vector after in-place edit', edit_then_mul, dict(x=xa_), 'X * S, X[0] = ..., X * S')
+            if ok:
+                L.close('SE3*vector (first)', r[0], b.adjoint(Xa_.A) @ xa_, TOL, max(1.0, float(np.max(np.abs(xa_)))) * max(1.0, geom.tmag(Xa_.A)), dict(x=xa_), sig='SE3*vector:after-edit')
+                L.close('SE3*vector (after X[0] = Y)', r[1], b.adjoint(r[2]) @ xa_, TOL, max(1.0, float(np.max(np.abs(xa_)))) * max(1.0, geom.tmag(r[2])), dict(x=xa_), what='after the pose object was edited in place, X * S still uses the adjoint of the old value', sig='SE3*vector:after-edit')
         ok, r = L.noraise('crf(momentum)', lambda: (SpatialVelocity(vel).cross(SpatialMomentum(frc)), SpatialVelocity(vel) @ SpatialMomentum(frc)), dict(v=vel, h=frc), 'velocity x* momentum')
         if ok:
             L.close('crf(momentum)', r[0].A, -crm.T @ frc, TOL, sv * float(np.max(np.abs(frc))), dict(v=vel, h=frc), what='force cross product applied to a momentum is not the negative transpose of the motion cross product', sig='crf:momentum')
